@@ -80,6 +80,10 @@ impl Rig {
     }
 }
 
+fn b2(v: bool) -> Obs {
+    b(v)
+}
+
 fn b(v: bool) -> Obs {
     Obs::Val(Some(v.to_string()))
 }
@@ -416,6 +420,27 @@ pub fn worker(w: &mut Worker) {
         }
     }
 
+    // every command again after hundreds (thousands) of other inputs: a text command keeps no memory of
+    // what it was given before. n distinct inputs in a first pass, the same n in a second and third pass
+    for n in tier.pick(vec![300usize, 5000], vec![300usize, 5000, 70000]) {
+        for pass in 0..3 {
+            for i in 0..n {
+                if pass > 0 && i % 7 != 0 && n > 300 {
+                    continue; // the later passes revisit every seventh input of the large runs
+                }
+                let a = (i * 7 + 3) as i64;
+                let b = (i % 13) as i64 + 1;
+                r.case("calc", vec![format!("{} + {} * 2", a, b)], false, vec![s((a + b * 2).to_string())], true);
+                r.case("calc", vec![a.to_string(), "-".into(), b.to_string()], false, vec![s((a - b).to_string())], true);
+                r.case("less_than", vec![a.to_string(), (a + 1 - (i % 3) as i64).to_string()], false, vec![b2(i % 3 == 0)], true);
+                r.case("uppercase", vec![format!("word{}x", i)], false, vec![s(format!("WORD{}X", i))], true);
+                r.case("replace", vec![format!("a{}b{}", i, i), i.to_string(), "-".into()], false, vec![s(format!("a{}b{}", i, i).replace(&i.to_string(), "-"))], true);
+                r.case("concat", vec![format!("p{}", i), "q".into()], false, vec![s(format!("p{}q", i))], true);
+                r.case("substring", vec![format!("abc{}", i), "3".into()], false, vec![s(i.to_string())], true);
+            }
+        }
+    }
+
     // numeric comparison
     let nums = ["-2", "-1", "0", "1", "1.5", "2", "10", "-1.5", "0.5", "100", "abc", "", "1e3", " 1", "0x10", "1,5", "-0", "-0.0", "0.0", "00", "1.0"];
     for a in nums {
@@ -552,7 +577,7 @@ pub fn crash_sig(_case: &Value, kind: &str) -> String {
     kind.to_string()
 }
 
-pub const RULE: &str = "every text up to the length bound over {a b SP e-acute emoji} x every needle up to length 2 through length/strlen/is_empty/trim*/uppercase/lowercase/indexof/last_indexof/contains/starts_with/ends_with/equals/eq/concat/replace/split; substring with every index and index pair from -(len+2) to len+2 plus non-numeric junk; less_than/greater_than over a 21x21 number pool (incl. -0, -0.0, 0.0, 00, 1.0); calc over n op m, the same as one argument, and ( n op m ) op2 k with exactly representable results; range over the grid and non-numeric arguments. Oracle: Rust's own string operations in byte units, documented substring semantics (error result for out-of-range, non-boundary or non-numeric indexes; an index equal to the text length is left open), numeric order, exact arithmetic. Non-trivial: multi-byte text, negative/out-of-range/non-numeric index, non-integer number. states = distinct (command, result class, arity); transitions = real command invocations; 14 further texts whose case mapping or trimming is not character by character (final sigma, sharp s, dotted capital I, ligature, digraphs, combining mark, no-break / ideographic / em space, TAB and LF). Scale cases: texts of 300/70000 (thorough 1000000) bytes built from a one- and a multi-byte block around a marker: length, indexof, last_indexof, contains, starts/ends_with, substring forms, replace, split, uppercase, trim; calc / less_than / greater_than / equals at the edge of the exactly representable integers (2^53). Results that a condition would read as false (0, false, no, their capitals) or as syntax (and, or, not, parentheses) arrived at through concat at every split point, trim*, case mapping, substring and replace. calc domain: 36 expressions that are no arithmetic (comparisons, booleans, tuples, assignments, empty, texts, dangling operators, unknown names, division by zero, function calls), each as one argument and split at blanks: the result is a number or the error result";
+pub const RULE: &str = "every text up to the length bound over {a b SP e-acute emoji} x every needle up to length 2 through length/strlen/is_empty/trim*/uppercase/lowercase/indexof/last_indexof/contains/starts_with/ends_with/equals/eq/concat/replace/split; substring with every index and index pair from -(len+2) to len+2 plus non-numeric junk; less_than/greater_than over a 21x21 number pool (incl. -0, -0.0, 0.0, 00, 1.0); calc over n op m, the same as one argument, and ( n op m ) op2 k with exactly representable results; range over the grid and non-numeric arguments. Oracle: Rust's own string operations in byte units, documented substring semantics (error result for out-of-range, non-boundary or non-numeric indexes; an index equal to the text length is left open), numeric order, exact arithmetic. Non-trivial: multi-byte text, negative/out-of-range/non-numeric index, non-integer number. states = distinct (command, result class, arity); transitions = real command invocations; 14 further texts whose case mapping or trimming is not character by character (final sigma, sharp s, dotted capital I, ligature, digraphs, combining mark, no-break / ideographic / em space, TAB and LF). Scale cases: texts of 300/70000 (thorough 1000000) bytes built from a one- and a multi-byte block around a marker: length, indexof, last_indexof, contains, starts/ends_with, substring forms, replace, split, uppercase, trim; calc / less_than / greater_than / equals at the edge of the exactly representable integers (2^53). Results that a condition would read as false (0, false, no, their capitals) or as syntax (and, or, not, parentheses) arrived at through concat at every split point, trim*, case mapping, substring and replace. calc domain: 36 expressions that are no arithmetic (comparisons, booleans, tuples, assignments, empty, texts, dangling operators, unknown names, division by zero, function calls), each as one argument and split at blanks: the result is a number or the error result. Three passes over 300 / 5000 (thorough 70000) distinct inputs of calc (two forms), less_than, uppercase, replace, concat and substring: the later passes give what the first gave";
 pub const ASSUMPTIONS: &[&str] = &["arguments are handed to the commands as already-bound values (run_instruction), so the parser is not in the loop", "division is only generated where the quotient is exact; number spellings such as 1e3 or ' 1' may be rejected or accepted but never mis-ordered"];
 pub const EXHAUSTIVE: bool = true;
 pub const WALL_CAP_S: (u64, u64) = (50, 1500);
